@@ -322,7 +322,7 @@ def postproc_traces(ctx, extra_sources=()):
 # --------------------------------------------------------------------------------------
 SYSTEM_CFG = '\n'.join([
     'CONSTANTS Items = {"density", "diameter", "potential", "closure", "omega", "domain", "kT"}',
-    'Optional = {"kT"}', 'Editable = {}', 'Resets <- NoResets', 'Needs <- NoNeeds', 'MaxMissing = 0', 'MaxPrisms = 1', 'MaxSteps = 1000000',
+    'Optional = {"kT"}', 'Editable = {}', 'Resets <- NoResets', 'Needs <- NoNeeds', 'Versions <- TwoVersions', 'Warnings <- NoWarnings', 'MaxMissing = 0', 'MaxPrisms = 1', 'MaxSteps = 1000000',
     'INIT TraceInit', 'NEXT TraceNext', 'VIEW TraceView', 'CHECK_DEADLOCK FALSE',
     'INVARIANTS CreateRaisesIffIncomplete',
     'POSTCONDITION TraceAccepted', ''])
